@@ -6,15 +6,6 @@ From NV Require Import Base.Bytes Isa.Codec Isa.CodecProofs gen.IsaTable Lang.As
   Back.VmSimFetch Back.VmSimStep Back.VmSimComp Back.VmSimWf Back.VmSimEnv Back.VmSimDefs Back.VmSimExpr Back.VmSimStmt.
 Import ListNotations.
 
-(* the argument evaluator of ECall, named *)
-Definition eval_args (fns : list fn) (fuel : nat) (genv en : env) : list expr -> list N -> res (list value) :=
-  fix eval_args (l : list expr) (out0 : list N) : res (list value) :=
-    match l with
-    | [] => Ok [] out0
-    | a :: r => bind (eval_expr fns fuel genv en a out0) (fun v out1 =>
-                bind (eval_args r out1) (fun vs out2 => Ok (v :: vs) out2))
-    end.
-
 Lemma eval_call_eq fns fuel genv en f args out :
   eval_expr fns (S fuel) genv en (ECall f args) out =
   bind (eval_args fns fuel genv en args out) (fun vs out1 =>
@@ -68,33 +59,6 @@ Notation stmt_sim := (stmt_sim fns G M).
 Ltac inf := unfold in_fn; split; [|split]; eassumption.
 Ltac rt := try apply Reach_trivial.
 
-Lemma sim_args fuel args : Forall (expr_sim fuel) args ->
-  forall genv en out ce p c p' fn fe cf pos ret locs st cs g,
-  in_fn M fn fe cf -> compile_args G ce args p = Some (c, p') -> code_at cf pos c -> exprs_ok args ->
-  match_env ce en locs -> match_genv G genv g -> pool_le p' (m_strings M) -> fuel_small fuel ->
-  Reach M (mkst fn ret locs st cs (fe_off fe + pos) g out)
-    (rpost (fun vs out' m => m = MNext (mkst fn ret locs (rev (map mval_of vs) ++ st) cs (fe_off fe + (pos + csize c)) g out') /\
-                             Forall val_ok vs)
-           (eval_args fns fuel genv en args out)).
-Proof.
-  induction 1 as [|a r Ha Hr IH]; intros genv en out ce p c p' fn fe cf pos ret locs st cs g Hin Hcomp Hc Hok Hme Hmg Hpool Hfuel;
-    cbn [compile_args] in Hcomp; cbn [eval_args].
-  - apply some2_inj in Hcomp. destruct Hcomp as [<- <-]. cbn [rpost]. apply Reach_here. split; [same_state|constructor].
-  - destruct (compile_expr G ce a p) as [[ca p1]|] eqn:E1; [|discriminate].
-    destruct (compile_args G ce r p1) as [[cr p2]|] eqn:E2; [|discriminate].
-    apply some2_inj in Hcomp. destruct Hcomp as [<- <-]. destruct Hok as [Hoka Hokr].
-    pose proof (compile_args_pool _ _ _ _ _ _ E2) as P2.
-    pose proof (code_at_app_l _ _ _ _ Hc) as Hca. apply code_at_app_r in Hc. autorewrite with csz.
-    eapply rpost_bind.
-    { eapply (Ha genv en out ce p ca p1 fn fe cf pos ret locs st cs g); try eassumption. eapply pool_le_trans; eassumption. }
-    intros v o1 m _ [-> Hv]; cbv iota beta.
-    eapply rpost_bind.
-    { eapply (IH genv en o1 ce p1 cr p2 fn fe cf (pos + csize ca) ret locs (mval_of v :: st) cs g); eassumption. }
-    intros vs o2 m _ [-> Hvs]; cbv iota beta. cbn [rpost].
-    apply Reach_here. split; [|constructor; assumption].
-    cbn [map rev]. rewrite <- app_assoc. cbn [app]. same_state.
-Qed.
-
 Lemma sim_ECall fuel f args :
   Forall (expr_sim fuel) args -> (forall s, stmt_sim fuel s) -> expr_sim (S fuel) (ECall f args).
 Proof.
@@ -105,7 +69,7 @@ Proof.
   apply some2_inj in Hcomp. destruct Hcomp as [<- <-].
   pose proof (code_at_app_l _ _ _ _ Hc) as Hca. apply code_at_app_r in Hc. autorewrite with csz.
   eapply rpost_bind.
-  { eapply (sim_args fuel args IHargs genv en out ce p cargs p1 fn fe cf pos ret locs st cs g); try eassumption. inf. }
+  { eapply (sim_args fns G M HG fuel args IHargs genv en out ce p cargs p1 fn fe cf pos ret locs st cs g); try eassumption. inf. }
   intros vs o1 m _ [-> Hvs]; cbv iota beta.
   destruct (find_fn fns f) as [d|] eqn:Ef; rt.
   destruct (bind_params (fparams d) vs) as [en'|] eqn:Eb; rt.
